@@ -170,43 +170,31 @@ class CouplingLevyCopulaSimulation:
             axis_coordinates.remove(j)
             return self.__coupling_state(increment, axis_coordinates)
         else:
-            # projection on the axis defined by the indices in axis_coordinates
+            # projection on the axes defined by the indices in axis_coordinates (the odd coordinates): the coarse state
+            # is drawn among the 2^k neighbouring coarse states with the conditional law of the coarse cell given the
+            # fine cell, the even coordinates keeping their (fine) cell
             position = grid.origin_coordinate + increment
             mass = self.coupling_process.model.mass
             value = grid[position]
             u = self.coupling_process._uniform.sample()
 
-            projected_position = CoordinateND(position[k] for k in axis_coordinates)
-            projected_value = tuple(value[k] for k in axis_coordinates)
-
-            projected_mid_left_value = grid.middle(
-                grid.left_point(projected_position), projected_value
-            )
-            projected_mid_right_value = grid.middle(
-                projected_value, grid.right_point(projected_position)
-            )
-            total_mass = mass(
-                projected_mid_left_value, projected_mid_right_value, axis_coordinates
-            )
+            cell_left = grid.middle(grid.left_point(position), value)
+            cell_right = grid.middle(value, grid.right_point(position))
+            total_mass = mass(cell_left, cell_right)
 
             probability = 0
             for p in product([-1, 1], repeat=len(axis_coordinates)):
-                p_value = grid[projected_position + p]
-                p_middle_value = grid.middle(p_value, projected_value)
-                min_max = tuple(
-                    (min(p1, p2), max(p1, p2))
-                    for p1, p2 in zip(projected_value, p_middle_value)
-                )
-                p_left_value, p_right_value = zip(*min_max)
-                p_mass = mass(p_left_value, p_right_value, axis_coordinates)
+                p_left_value, p_right_value = list(cell_left), list(cell_right)
+                res = list(value)
+                for k, p_k in zip(axis_coordinates, p):
+                    if p_k < 0:
+                        p_right_value[k] = value[k]
+                    else:
+                        p_left_value[k] = value[k]
+                    res[k] = grid.axes[k][position[k] + p_k]
+                p_mass = mass(p_left_value, p_right_value)
                 probability += p_mass / total_mass
                 if u <= probability:
-                    res = tuple(
-                        p_value[axis_coordinates.index(k)]
-                        if k in axis_coordinates
-                        else value[k]
-                        for k in range(dim)
-                    )
                     return np.array(res)
 
             raise ValueError(
